@@ -447,7 +447,8 @@ func c19ResultSet(t *rapid.T) {
 				nullInCoerced = true
 				continue
 			}
-			txt := rapid.SampledFrom([]string{"1.5", "-0.25", "1e3", "0", "42", "3.14159", "1e-7"}).Draw(t, "numtext")
+			// number texts in the spellings stores hand out (what they denote is decided by strconv in the model)
+			txt := rapid.SampledFrom([]string{"1.5", "-0.25", "1e3", "0", "42", "3.14159", "1e-7", "+7", "007", ".5", "5.", "1E3", "-0", "1e+2", "12345678901234567890", "0.1", "100.00", "-1e-3"}).Draw(t, "numtext")
 			f, _ := strconv.ParseFloat(txt, 64)
 			rs.Rows[r] = append(rs.Rows[r], txt)
 			c.F = append(c.F, f)
